@@ -1,8 +1,27 @@
 (** C31 — reconnection respects pause and bounded exponential backoff. *)
 From Coq Require Import List NArith ZArith Bool.
-From MM Require Import Model.Reconnect Proofs.ReconnectProofs.
+From Coq Require Import String.
+From MM Require Import Model.Reconnect Proofs.ReconnectProofs Generated.C31.
 Import ListNotations.
 Local Open Scope Z_scope.
+
+(** The facts regenerated from reconnect.go / manager.go on this run select
+    the repaired variant of the model, the jitter constants are the model's,
+    and peer.Manager drives the reconnector the way [apply ... mgr:=true] says. *)
+Definition gen_variant : variant :=
+  {| v_pause := gen_schedule_checks_paused && gen_attempt_checks_paused_before_start && gen_attempt_checks_paused_before_rearm;
+     v_single := gen_schedule_skips_while_inflight && gen_attempt_tracks_inflight && gen_attempt_checks_generation &&
+                 gen_attempt_checks_state_identity && gen_arm_stops_previous_timer && gen_arm_takes_new_generation &&
+                 gen_timers_created_only_in_arm |}.
+
+Theorem C31_source_facts :
+  gen_variant = fixed /\
+  gen_jitter_modulus = jitter_modulus /\ gen_jitter_factor = jitter_factor /\
+  gen_jitter_divisor = "1000.0"%string /\ gen_jitter_offset = "0.5"%string /\
+  gen_manager_schedules_on_dial_failure = true /\ gen_manager_schedules_on_disconnect = true /\
+  gen_manager_disconnectall_pauses = true /\ gen_manager_callback_is_handle_reconnect = true.
+Proof. repeat split; reflexivity. Qed.
+Print Assumptions C31_source_facts.
 
 (** While reconnection is paused no event starts a connection attempt: every
     state (reachable or not), every event (timer expiry during a time advance,
